@@ -74,6 +74,31 @@ pub fn alias_scenarios() -> Vec<Scenario> {
     v
 }
 
+/// two sources whose trees meet at one destination path: one holds a link to the other's file, the other the
+/// file itself. Whatever the mapping does there (the properties leave it open), the source must stay intact.
+pub fn cross_link_scenarios(quick: bool) -> Vec<Scenario> {
+    let mut v = vec![];
+    for d in drivers() {
+        for w in if quick { vec!["2"] } else { vec!["1", "2", "3"] } {
+            for order in [["v1/conf", "v2/conf"], ["v2/conf", "v1/conf"]] {
+                let tree = vec![
+                    Entry::dir("v1"),
+                    Entry::dir("v1/conf"),
+                    Entry::link("v1/conf/settings", "../../v2/conf/settings"),
+                    Entry::file("v1/conf/other", "other file"),
+                    Entry::dir("v2"),
+                    Entry::dir("v2/conf"),
+                    Entry::file("v2/conf/settings", "precious settings of v2").mode(0o640).mtime(1_300_000_000, 5),
+                    Entry::link("v2/conf/other", "{R}/v1/conf/other"),
+                    Entry::dir("dst"),
+                ];
+                v.push(Scenario::new(&format!("crosslink-{}-w{}-{}", d, w, order[0].replace('/', "_")), tree, &["-r", "--driver", d, "-w", w, order[0], order[1], "dst"]));
+            }
+        }
+    }
+    v
+}
+
 pub fn kill_scenarios() -> Vec<Scenario> {
     let mut v = vec![];
     for d in drivers() {
@@ -148,6 +173,15 @@ pub fn run(ctx: &Ctx) -> Report {
     }
     let st = explore(&ctx.pool, jobs, j);
     rep.part("alias relations", st, serde_json::json!({"shapes": 15, "d": if ctx.quick() { 0 } else { 1 }}));
+    let mut jobs = vec![];
+    for s in cross_link_scenarios(ctx.quick()) {
+        let s = Arc::new(s);
+        for b in base_specs() {
+            jobs.push((s.clone(), b, if ctx.quick() { 1 } else { 2 }));
+        }
+    }
+    let st = explore(&ctx.pool, jobs, j);
+    rep.part("two sources meeting at one destination path through links to each other's files, schedule search", st, serde_json::json!({"d": if ctx.quick() { 1 } else { 2 }}));
     let st = kill_sweep(ctx, &kill_scenarios(), if ctx.quick() { 0 } else { 1 }, j);
     rep.part("SIGKILL at every decision point", st, serde_json::json!({"deviations_before_the_kill": if ctx.quick() { 0 } else { 1 }}));
     let (st, nsites) = c04::fault_sweep(ctx, j, 0);
